@@ -27,17 +27,27 @@ RULE = ("exhaustive enumeration (see exhaustive_subspace) of (input shape, targe
         "trimmed result, its data edited in place; every array under test is built in 7 ways (fresh, .native, "
         "store_native=True, from slim values, result of arithmetic, deep copy, general.yaml native_binned_only=True) and the "
         "data of Imaging in 6; values are integers (including 0 and 31-bit mantissas) times 2**sc, sc in {0, -40, 40, -70, 30}; "
-        "every call is followed by a fingerprint comparison of the objects the caller still holds; plus a random stream of larger shapes. "
+        "every call is followed by a fingerprint comparison of the objects the caller still holds; plus a random stream of larger shapes; "
+        "PHASE 4: the util functions on int / bool / uint8 / float32 ndarrays (Fortran order, strided views, read-only) with fractional pad "
+        "values; Array2D entry points on integer / float32 / list values, Kernel2D and user-subclass instances, subclass masks, shape arguments as "
+        "tuple / list / numpy integers, default arguments omitted; masks from Mask2D.all_false / circular / from_pixel_coordinates; "
+        "Imaging(..., pad_for_convolver=True/False) directly, explicit OverSamplingDataset, PSF pixel scales independent of the data's, "
+        "non-positive noise at masked pixels, noise-map edits in histories, Imaging / Kernel2D subclasses; sibling entry points "
+        "(preprocess.array_with_new_shape, Mask2D.unmasked_blurred_array_from, Mask2D.from_fits(resized_mask_shape), "
+        "Array2D.extent_of_zoomed_array, Grid2D.padded_grid_from); the default-argument objects of the anchored callables are fingerprinted "
+        "after every case. "
         "Every case is non-trivial (it runs an anchored routine); distinct = distinct JSON input.")
 EXHAUSTIVE = {
     "quick": "util resize: all shapes 1..5 x 1..5 to all targets 0..6 x 0..6; Array2D/Mask2D.resized_from: shapes 1..4^2 to "
              "targets 1..6^2 (mask drawn per case); pad / trim / pad-then-trim / trimmed_array_from: shapes 1..4^2 x kernels "
              "{1,3,5,7}^2; enlarge-then-shrink: shapes 1..4^2 x enlargements 0..3 per axis; zoom: every mask with H*W <= 7, "
              "buffer cycling 0,1,2 (negative buffers -1,-2 on every third); zoom geometry (mask properties and "
-             "zoomed_around_mask's mask with buffers cycling 0,1,-1,2,-2,0,-3 on every second one) for the same masks; apply_mask: every mask with H*W <= 6 with kernel (3,3)",
+             "zoomed_around_mask's mask with buffers cycling 0,1,-1,2,-2,0,-3 on every second one) for the same masks; apply_mask: every mask with H*W <= 6 with kernel (3,3); "
+             "Grid2D.padded_grid_from: shapes 1..3^2 x kernels {1,3,5,7}^2",
     "thorough": "util resize: shapes 1..8^2 to targets 0..9^2; Array2D/Mask2D.resized_from: shapes 1..7^2 to targets 1..9^2; "
                 "pad/trim family: shapes 1..6^2 x kernels {1,3,5,7}^2; enlarge-then-shrink: shapes 1..6^2 x enlargements 0..4; "
-                "zoom: every mask with H*W <= 9 (each buffer 0,1,2 up to H*W <= 8, cycling above), zoom geometry for the same masks; apply_mask: every mask with H*W <= 8, kernels (3,3),(1,5),(5,3)",
+                "zoom: every mask with H*W <= 9 (each buffer 0,1,2 up to H*W <= 8, cycling above), zoom geometry for the same masks; apply_mask: every mask with H*W <= 8, kernels (3,3),(1,5),(5,3); "
+                "Grid2D.padded_grid_from: shapes 1..5^2 x kernels {1,3,5,7}^2",
 }
 TRUSTED = ["correspondence harness harness/c14.py (exact: integer data times powers of two, dyadic pixel scales / origins, outputs converted with "
            "Fraction); for histories with in-place edits the harness tracks which content a re-masked dataset refers to (the live unmasked "
@@ -88,6 +98,11 @@ def values(h, w, rng, lo=-9, hi=9, wide=False):
     return [[one() for _ in range(w)] for _ in range(h)]
 DVS = ["fresh", "native", "sn", "arith", "resized", "cfg"]           # how the data / noise map of an Imaging were obtained
 VARS = ["fresh", "native", "sn", "slim", "arith", "cfg", "copy"]          # how the Array2D under test was obtained
+# phase 4: input KINDS (integer / float32 / bool-free python-list values), SUBCLASS instances (Kernel2D, a user subclass of
+# Array2D, a user subclass of Mask2D as the mask), arrays obtained through other constructors (no_mask + Array2D.apply_mask, full)
+VARS2 = ["int", "f32", "list", "kernel", "sub", "applied", "submask"]
+DVS2 = ["int", "f32", "list", "sub", "submask"]                  # the same for the data / noise map handed to Imaging
+SKS = ["tuple", "list", "npint"]                                 # how shape / kernel-shape / buffer arguments are passed
 SCS = [0, -40, 0, 40, 0, -70, 30]                                  # values are integers times 2**sc
 def rmask(h, w, rng, p=None):
     p = rng.choice([0.0, 0.3, 0.6, 0.85]) if p is None else p
@@ -107,12 +122,20 @@ def needs_pad(m, k):
     return any((not m[y][x]) and (y < c0 or y + c0 >= h or x < c1 or x + c1 >= w) for y in range(h) for x in range(w))
 
 def gen_inputs(tier, rng):
+    """all streams; the environment variable C14_ONLY=op1,op2 (development aid) keeps only those ops (the PRNG stream is the same)"""
+    import os
+    only = [x for x in os.environ.get("C14_ONLY", "").split(",") if x]
+    for inp in _gen_inputs(tier, rng):
+        if not only or inp["op"] in only or inp.get("tag") in only: yield inp
+
+def _gen_inputs(tier, rng):
     big = tier == "thorough"
     # --- util resize, exhaustive over shapes and targets (all parity combinations)
     S, R = (8, 9) if big else (5, 6)
     for h, w in itertools.product(range(1, S + 1), repeat=2):
-        m = [[1 + y * w + x for x in range(w)] for y in range(h)]
         for r0, r1 in itertools.product(range(0, R + 1), repeat=2):
+            off = rng.randint(0, 40)          # same shape, other content: a result remembered per shape would show
+            m = [[off + 1 + y * w + x for x in range(w)] for y in range(h)]
             yield {"op": "resize_u", "m": m, "rs": [r0, r1], "origin": [-1, -1], "pad": -7 if (r0 + r1) % 3 == 0 else 0}
     for _ in range(600 if big else 150):   # explicit origin, negative shapes: correspondence only
         h, w = rng.randint(1, 6), rng.randint(1, 6)
@@ -271,15 +294,183 @@ def gen_inputs(tier, rng):
         r2 = [h + 2 * rng.randint(-2, 3), w + 2 * rng.randint(-2, 3)]
         yield {"op": "resize_coords", "m": a[1], "rs": r2, "g": list(rng.choice(GEOMS))}
 
+    # ================= phase 4: input kinds, subclasses, argument objects, sibling entry points, directed states
+    # --- util functions on integer / bool / float32 / uint8 ndarrays, Fortran order, strided views, read-only; fractional pad value
+    DTS = ["int64", "int32", "bool", "float32", "uint8", "float64"]; LAYS = ["c", "f", "view", "ro"]
+    def kind_vals(h, w, dt):
+        if dt == "bool": return [[rng.randint(0, 1) for _ in range(w)] for _ in range(h)]
+        if dt == "uint8": return [[rng.randint(0, 9) for _ in range(w)] for _ in range(h)]
+        return values(h, w, rng)
+    for n in range(600 if big else 130):
+        h, w = rng.randint(1, 5), rng.randint(1, 5); dt = DTS[n % 6]; omit = n % 3 == 0
+        yield {"op": "resize_u", "tag": "kinds", "m": kind_vals(h, w, dt), "dt": dt, "lay": LAYS[(n // 6) % 4], "rs": [rng.randint(0, 7), rng.randint(0, 7)],
+               "origin": [-1, -1] if omit else [rng.choice([-1, -1, 0, 1, 2, 3]), rng.choice([-1, 0, 1, 2, 4])], "omit": omit,
+               "pad2": rng.choice([1, -3, 5, 7, 2, 0]), "sk": SKS[n % 3]}
+    for n in range(300 if big else 60):
+        h, w = rng.randint(1, 5), rng.randint(1, 5); dt = DTS[n % 6]
+        y0, x0 = rng.randint(-2, h), rng.randint(-2, w)
+        yield {"op": "extract_u", "tag": "kinds", "m": kind_vals(h, w, dt), "dt": dt, "lay": LAYS[(n // 6) % 4], "sk": SKS[n % 3],
+               "r": [y0, rng.randint(y0, h + 2), x0, rng.randint(x0, w + 2)]}
+    # --- Array2D entry points on other input kinds / subclass instances, shape arguments as list / numpy integers, defaults omitted,
+    #     resize through dataset.preprocess.array_with_new_shape
+    for n in range(1300 if big else 270):
+        h, w = rng.randint(1, 6), rng.randint(1, 6)
+        mk = rmask(h, w, rng); a = [values(h, w, rng, wide=(n % 2 == 0)), mk]
+        vs = {"tag": "kinds", "var": VARS2[n % 7], "sc": SCS[(n // 7) % 7], "sk": SKS[(n + n // 9) % 3], "omit": (n // 3) % 2 == 0, "pre": n % 4 == 1}
+        kk = [rng.choice(ODD), rng.choice(ODD)]
+        c = n % 9
+        if c == 0: yield {"op": "arr_resize", "a": a, "rs": [rng.randint(1, 7), rng.randint(1, 7)], "mpv": (n // 9) % 2, **vs}
+        elif c == 1: yield {"op": "arr_pad", "a": a, "k": kk, "mpv": (n // 9) % 2, **vs}
+        elif c == 2:      # a kernel that leaves something (k <= shape per axis) three times out of four
+            kt = kk if n % 4 == 3 else [rng.choice([k for k in ODD if k <= h]), rng.choice([k for k in ODD if k <= w])]
+            yield {"op": "arr_trim", "a": a, "k": kt, **vs}
+        elif c == 3: yield {"op": "pad_trim", "a": a, "k": kk, "mpv": (n // 9) % 2, **vs}
+        elif c == 4: yield {"op": "enlarge_shrink", "a": a, "rs": [h + rng.randint(0, 3), w + rng.randint(0, 3)], "mpv": (n // 9) % 2, **vs}
+        elif c == 5: yield {"op": "pad_trimarr", "a": a, "k": kk, **vs}
+        elif c == 6: yield {"op": "arr_resize", "a": a, "rs": [h + 2 * rng.randint(-1, 2), w + 2 * rng.randint(-1, 2)], "mpv": 0, **vs}
+        else:
+            if all(all(r) for r in mk): mk[rng.randrange(h)][rng.randrange(w)] = False
+            if c == 7: yield {"op": "zoom", "a": a, "b": rng.choice([1, 1, 0, 2, -1]), **vs}
+            else: yield {"op": "zoom_geo", "m": mk, "v": a[0], "g": list(rng.choice(GEOMS)), "b": rng.choice([1, 1, 0, 2, -1]), **vs}
+    for n in range(150 if big else 40):
+        h, w = rng.randint(1, 5), rng.randint(1, 5); mk = rmask(h, w, rng, rng.choice([0.0, 0.3, 0.6]))
+        yield {"op": "hist_arr", "tag": "kinds", "a": [values(h, w, rng, wide=True), mk], "var": VARS2[n % 7], "sc": SCS[(n // 7) % 7],
+               "sk": SKS[n % 3], "omit": n % 2 == 0, "pre": n % 4 == 1, "steps": arr_steps(h, w, mk)}
+    # --- masks obtained through other constructors (classmethods, a user subclass, python lists)
+    def mc_rand():
+        h, w = rng.randint(1, 7), rng.randint(1, 7); c = rng.random()
+        if c < 0.2: return ["sub", rmask(h, w, rng, 0.5)]
+        if c < 0.35: return ["list", rmask(h, w, rng, 0.5)]
+        if c < 0.45: return ["all_false", h, w]
+        if c < 0.75: return ["circular", h, w, rng.randint(1, 6), rng.randint(-3, 3), rng.randint(-3, 3)]
+        return ["pixcoords", h, w, [[rng.randrange(h), rng.randrange(w)] for _ in range(rng.randint(1, 3))], rng.choice([0, 0, 1])]
+    for n in range(450 if big else 100):
+        mc = mc_rand(); g = list(rng.choice(GEOMS)); c = n % 5
+        base = {"tag": "kinds", "mc": mc, "m": None, "sk": SKS[n % 3], "omit": n % 2 == 0}
+        if c == 0: yield {"op": "zoom_region", **base}
+        elif c == 1: yield {"op": "mask_zoom", "g": g, **base}
+        elif c == 2: yield {"op": "mask_resize", "rs": [rng.randint(0, 8), rng.randint(0, 8)], "padv": rng.choice([0, 0, 1, 2]), **base}
+        elif c == 3: yield {"op": "resize_coords", "rs": [rng.randint(1, 8), rng.randint(1, 8)], "g": g, **base}
+        else:
+            if mc[0] not in ("sub", "list"): mc = ["sub", rmask(rng.randint(1, 5), rng.randint(1, 5), rng, 0.5)]
+            m0 = mc[1]
+            if all(all(r) for r in m0): m0[0][0] = False
+            h, w = len(m0), len(m0[0])
+            st = [["zoom_region"], ["resize", [rng.randint(1, 6), rng.randint(1, 6)], rng.choice([0, 1])], ["mask_zoom"],
+                  ["resize", [rng.randint(1, 6), rng.randint(1, 6)], 0], ["trimarr", values(h, w, rng), [h - 2 * rng.randint(0, h // 2), w - 2 * rng.randint(0, w // 2)]],
+                  ["coords", [h + 2 * rng.randint(0, 2), w + 2 * rng.randint(0, 2)]], ["zoom_region"]]
+            rng.shuffle(st)
+            yield {"op": "hist_mask", "g": g, "steps": st, "blur": n % 2 == 1, **{**base, "mc": mc}}
+    # --- Grid2D.padded_grid_from (the PSF padding of a grid): exhaustive over small shapes and odd kernels, some even kernels
+    S = 5 if big else 3
+    for h, w in itertools.product(range(1, S + 1), repeat=2):
+        for k0, k1 in list(itertools.product(ODD, repeat=2)) + [(2, 2), (4, 3), (1, 2)]:
+            i += 1
+            yield {"op": "pad_grid", "m": rmask(h, w, rng, 0.4), "k": [k0, k1], "g": list(GEOMS[i % len(GEOMS)]), "sk": SKS[i % 3],
+                   "via": ["from_mask", "uniform", "no_mask"][i % 3], "twice": i % 2 == 0}
+    for n in range(60 if big else 16):          # Mask2D.from_fits(resized_mask_shape=..., invert=...)
+        h, w = rng.randint(1, 5), rng.randint(1, 5)
+        yield {"op": "mask_fits", "m": rmask(h, w, rng, 0.5), "rs": [rng.randint(1, 7), rng.randint(1, 7)], "inv": n % 2 == 1, "sk": SKS[n % 3]}
+    for n in range(250 if big else 60):         # trimmed_array_from: through unmasked_blurred_array_from, argument kinds, subclass mask
+        h, w = rng.randint(1, 6), rng.randint(1, 6)
+        yield {"op": "trimarr", "tag": "kinds", "p": values(h, w, rng, wide=(n % 3 == 0)), "is": [rng.randint(0, h), rng.randint(0, w)],
+               "blur": n % 2 == 0, "sk": SKS[n % 3], "submask": n % 4 == 0}
+    # --- Imaging: the three geometries (mask, unmasked data, PSF) varied independently; Imaging(..., pad_for_convolver=...) reached
+    #     directly; explicit OverSamplingDataset argument; non-positive noise at masked pixels; subclass instances; input kinds
+    def border_masks(h, w):
+        for y in range(h):
+            for x in range(w):
+                if y in (0, h - 1) or x in (0, w - 1): yield [[not (yy == y and xx == x) for xx in range(w)] for yy in range(h)]
+    directed = [(mk, k) for h, w in ((3, 4), (1, 3), (4, 1)) for mk in border_masks(h, w) for k in ([1, 3], [3, 1], [5, 1], [1, 5], [3, 5])]
+    if not big: directed = directed[::3]
+    nrand = 1200 if big else 200
+    for n in range(nrand + len(directed)):
+        if n < nrand:
+            h, w = rng.randint(1, 6), rng.randint(1, 6)
+            mk = rmask(h, w, rng, rng.choice([0.3, 0.6, 0.9])); k = rng.choice([None] + [[a, b] for a in ODD[:3] for b in ODD[:3]] + [[2, 2]])
+        else:
+            mk, k = directed[n - nrand]; h, w = len(mk), len(mk[0])    # one unmasked border pixel, kernels extended along one axis only
+        noise = values(h, w, rng, 1, 9, wide=(n % 2 == 1))
+        nneg = n % 3 == 0
+        if nneg: noise = [[(rng.choice([0, -1, -7]) if mk[y][x] else noise[y][x]) for x in range(w)] for y in range(h)]
+        g = list(rng.choice(GEOMS))
+        yield {"op": "apply_mask", "tag": "kinds", "data": values(h, w, rng, wide=(n % 2 == 1)), "noise": noise, "m": mk, "k": k, "g": g,
+               "gp": list(rng.choice(GEOMS))[:2] if n % 4 < 3 else g[:2],
+               "dv": (DVS + DVS2)[n % 11], "sc": SCS[(n // 11) % 7], "entry": ["apply", "direct", "apply", "direct_nopad"][n % 4] if not nneg else ["apply", "direct"][n % 2],
+               "nocheck": nneg, "os": [rng.randint(1, 3), rng.randint(1, 3)] if n % 5 < 2 else None, "subimg": n % 7 == 0, "subpsf": n % 7 == 3}
+    for n in range(150 if big else 40):
+        h, w = rng.randint(1, 5), rng.randint(1, 5)
+        k = rng.choice([None, [3, 3], [3, 3], [1, 3], [5, 3]])
+        st = []
+        for j in range(rng.randint(3, 5)):
+            mkj = rmask(h, w, rng, rng.choice([0.0, 0.3, 0.6, 0.9]))
+            if j > 0 and rng.random() < 0.4: st.append([rng.choice(["edit", "nedit"]), rng.randrange(h), rng.randrange(w), rng.randint(11, 99)])
+            st.append([rng.choice(["mask", "mask", "chain", "trimchain"]) if j > 0 else "mask", mkj])
+        st.append(["mask", st[0][1]])
+        g = list(rng.choice(GEOMS))
+        yield {"op": "hist_img", "tag": "kinds", "data": values(h, w, rng, wide=True), "noise": values(h, w, rng, 1, 9, wide=True), "k": k,
+               "g": g, "gp": list(rng.choice(GEOMS))[:2], "dv": (DVS + DVS2)[n % 11], "sc": SCS[(n // 11) % 7], "steps": st,
+               "os": [rng.randint(1, 3), rng.randint(1, 3)] if n % 2 == 0 else None, "subimg": n % 3 == 0, "sk": SKS[n % 3]}
+
 # ------------------------------------------------------------------ implementation calls
-def mk_mask(aa, m, g=("1", "1", "0", "0")):
+_SUB = {}
+def subclasses(aa):
+    """user-defined subclasses of the accepted classes (dispatch on type(x) instead of isinstance would show)"""
+    if not _SUB:
+        class SubArray2D(aa.Array2D): pass
+        class SubMask2D(aa.Mask2D): pass
+        class SubImaging(aa.Imaging): pass
+        class SubKernel2D(aa.Kernel2D): pass
+        _SUB.update(arr=SubArray2D, mask=SubMask2D, img=SubImaging, ker=SubKernel2D)
+    return _SUB
+def mk_mask(aa, m, g=("1", "1", "0", "0"), sub=False, aslist=False):
     g = [float(Fraction(x)) for x in g]
-    return aa.Mask2D(mask=np.array(m, dtype=bool).reshape(len(m), len(m[0])), pixel_scales=(g[0], g[1]), origin=(g[2], g[3]))
+    cls = subclasses(aa)["mask"] if sub else aa.Mask2D
+    mm = np.array(m, dtype=bool).reshape(len(m), len(m[0]))
+    return cls(mask=(mm.tolist() if aslist and mm.size else mm), pixel_scales=(g[0], g[1]), origin=(g[2], g[3]))
+def mk_mask2(aa, inp, g):
+    """the Mask2D under test and its content: built from inp["m"], or through another constructor inp["mc"] =
+    ["sub"|"list", m] (user subclass / python lists), ["all_false", h, w], ["circular", h, w, radius*2, cy*2, cx*2],
+    ["pixcoords", h, w, [[y, x], ...], buffer] (the content is then read off the object: it is the input of the routine under test)"""
+    mc = inp.get("mc")
+    if mc is None: return mk_mask(aa, inp["m"], g), [list(map(bool, r)) for r in inp["m"]]
+    gf = [float(Fraction(x)) for x in g]; ps, org = (gf[0], gf[1]), (gf[2], gf[3])
+    if mc[0] == "sub": mask = mk_mask(aa, mc[1], g, sub=True)
+    elif mc[0] == "list": mask = mk_mask(aa, mc[1], g, aslist=True)
+    elif mc[0] == "all_false": mask = aa.Mask2D.all_false(shape_native=(mc[1], mc[2]), pixel_scales=ps, origin=org)
+    elif mc[0] == "circular":
+        mask = aa.Mask2D.circular(shape_native=(mc[1], mc[2]), radius=mc[3] / 2.0 * abs(gf[0]), pixel_scales=ps, origin=org,
+                                  centre=(org[0] + mc[4] / 2.0 * gf[0], org[1] + mc[5] / 2.0 * gf[1]))
+    elif mc[0] == "pixcoords":
+        mask = aa.Mask2D.from_pixel_coordinates(shape_native=(mc[1], mc[2]), pixel_coordinates=mc[3], pixel_scales=ps, origin=org, buffer=mc[4])
+    else: raise ValueError(mc[0])
+    tally("mask built by " + mc[0])
+    return mask, bout(np.array(mask))
+def f32_ok(vals): return all(abs(v) < 2 ** 24 for r in vals for v in r)
+def eff_var(var, vals, sc):
+    """integer dtype needs sc == 0, float32 needs 24-bit mantissas: otherwise the python-list kind is used (decided from the input)"""
+    if var == "int" and sc != 0: return "list"
+    if var == "f32" and not f32_ok(vals): return "list"
+    return var
+def shp(x, sk):
+    """a shape / kernel-shape argument as a tuple, a list, or a tuple of numpy integers"""
+    if sk == "list": return list(x)
+    if sk == "npint": return tuple(np.int64(v) for v in x)
+    return tuple(x)
 def mk_arr(aa, a, g=("1", "1", "0", "0"), var="fresh", sc=0):
     """the Array2D under test: freshly built, or DERIVED (.native of a slim array, store_native=True, built from slim
     values, result of arithmetic); values are the integers a[0] times 2**sc"""
-    mask = mk_mask(aa, a[1], g)
+    var = eff_var(var, a[0], sc)
+    mask = mk_mask(aa, a[1], g, sub=(var == "submask"))
     v = np.array(a[0], dtype=float).reshape(len(a[0]), len(a[0][0])) * (2.0 ** sc)
+    if var == "int": return aa.Array2D(values=np.array(a[0], dtype=np.int64).reshape(v.shape), mask=mask)
+    if var == "f32": return aa.Array2D(values=v.astype(np.float32), mask=mask)
+    if var == "list": return aa.Array2D(values=v.tolist(), mask=mask)
+    if var == "kernel": return aa.Kernel2D(values=v, mask=mask)
+    if var == "sub": return subclasses(aa)["arr"](values=v, mask=mask)
+    if var == "applied":      # Array2D.no_mask (all-False mask, same geometry) then Array2D.apply_mask
+        gf = [float(Fraction(x)) for x in g]
+        return aa.Array2D.no_mask(values=v, pixel_scales=(gf[0], gf[1]), origin=(gf[2], gf[3])).apply_mask(mask=mask)
     if var == "native": return aa.Array2D(values=v, mask=mask).native
     if var == "sn": return aa.Array2D(values=v, mask=mask, store_native=True)
     if var == "slim" and not all(all(r) for r in a[1]): return aa.Array2D(values=v[~np.array(a[1], dtype=bool)], mask=mask)
@@ -322,12 +513,6 @@ def qgeom_of(mask):
     return [fr(mask.pixel_scales[0]), fr(mask.pixel_scales[1]), fr(mask.origin[0]), fr(mask.origin[1])]
 def cshape_geom(o): return ctup([cpair(o[0]), cgeom(o[1])])
 def str_geom(o): return [o[0], [str(x) for x in o[1]]]
-def zoom_geo_obs(arr, b, bad):
-    """shape, pixel scales and origin of the mask of arr.zoomed_around_mask(buffer=b)"""
-    z = arr.zoomed_around_mask(buffer=b)
-    if np.array(z.mask).any(): bad.append("the zoomed array's mask is not all False")
-    if tuple(np.array(z.native).shape) != tuple(z.mask.shape_native): bad.append("zoomed array and its mask differ in shape")
-    return [[int(z.mask.shape_native[0]), int(z.mask.shape_native[1])], qgeom_of(z.mask)]
 def mask_zoom_obs(mask):
     mc, zc, op, os_ = mask.mask_centre, mask.zoom_centre, mask.zoom_offset_pixels, mask.zoom_offset_scaled
     zs, zm = mask.zoom_shape_native, mask.zoom_mask_unmasked
@@ -340,21 +525,53 @@ def cmask_zoom(o):
 def str_mask_zoom(o):
     return [[[str(x) for x in q] for q in o[0]], [[str(x) for x in q] for q in o[1]], str_geom(o[2])]
 
-def arr_step(aa, arr, st, sc, bad):
-    """one observation on the Array2D `arr` (which the caller keeps): returns the converted result"""
+def zoom_geo_obs(arr, b, bad, opt=None):
+    """shape, pixel scales and origin of the mask of arr.zoomed_around_mask(buffer=b)"""
+    opt = opt or {}
+    bb = np.int64(b) if opt.get("sk") == "npint" else b
+    z = arr.zoomed_around_mask() if (opt.get("omit") and b == 1) else arr.zoomed_around_mask(buffer=bb)
+    if np.array(z.mask).any(): bad.append("the zoomed array's mask is not all False")
+    if tuple(np.array(z.native).shape) != tuple(z.mask.shape_native): bad.append("zoomed array and its mask differ in shape")
+    # the sibling Array2D.extent_of_zoomed_array describes the same frame
+    ext = arr.extent_of_zoomed_array() if (opt.get("omit") and b == 1) else arr.extent_of_zoomed_array(buffer=bb)
+    if [float(v) for v in ext] != [float(v) for v in z.mask.geometry.extent]:
+        bad.append("extent_of_zoomed_array differs from the extent of zoomed_around_mask's mask")
+    return [[int(z.mask.shape_native[0]), int(z.mask.shape_native[1])], qgeom_of(z.mask)]
+def arr_step(aa, arr, st, sc, bad, opt=None):
+    """one observation on the Array2D `arr` (which the caller keeps): returns the converted result.
+    opt: sk = how shape arguments are passed, omit = leave out arguments that have their default value,
+    pre = go through the sibling entry point dataset.preprocess.array_with_new_shape"""
+    opt = opt or {}
+    sk, omit = opt.get("sk", "tuple"), opt.get("omit", False)
     kind = st[0]
-    if kind == "resize": r = arr.resized_from(new_shape=tuple(st[1]), mask_pad_value=st[2])
-    elif kind == "pad": r = arr.padded_before_convolution_from(kernel_shape=tuple(st[1]), mask_pad_value=st[2])
-    elif kind == "trim": r = arr.trimmed_after_convolution_from(kernel_shape=tuple(st[1]))
+    held = []                                 # mutable argument objects the caller still holds
+    def S(x):
+        o = shp(x, sk)
+        if isinstance(o, list): held.append((o, list(o)))
+        return o
+    def mpv(v): return {} if (omit and v == 0) else {"mask_pad_value": v}
+    if kind == "resize":
+        if opt.get("pre") and st[2] == 0:
+            from autoarray.dataset import preprocess
+            r = preprocess.array_with_new_shape(array=arr, new_shape=S(st[1]))
+        else: r = arr.resized_from(new_shape=S(st[1]), **mpv(st[2]))
+    elif kind == "pad": r = arr.padded_before_convolution_from(kernel_shape=S(st[1]), **mpv(st[2]))
+    elif kind == "trim": r = arr.trimmed_after_convolution_from(kernel_shape=S(st[1]))
     elif kind == "padtrim":
-        r = arr.padded_before_convolution_from(kernel_shape=tuple(st[1]), mask_pad_value=st[2]).trimmed_after_convolution_from(kernel_shape=tuple(st[1]))
+        ks = S(st[1])                         # the SAME argument object for both calls
+        r = arr.padded_before_convolution_from(kernel_shape=ks, **mpv(st[2])).trimmed_after_convolution_from(kernel_shape=ks)
     elif kind == "enlshr":
-        r = arr.resized_from(new_shape=tuple(st[1]), mask_pad_value=st[2]).resized_from(new_shape=tuple(arr.shape_native), mask_pad_value=st[2])
+        r = arr.resized_from(new_shape=S(st[1]), **mpv(st[2])).resized_from(new_shape=S(arr.shape_native), **mpv(st[2]))
     elif kind == "zoom":
-        return zout(np.array(arr.zoomed_around_mask(buffer=st[1]).native), sc)
+        bb = np.int64(st[1]) if sk == "npint" else st[1]
+        z = arr.zoomed_around_mask() if (omit and st[1] == 1) else arr.zoomed_around_mask(buffer=bb)
+        return zout(np.array(z.native), sc)
     elif kind == "zoomgeo":
-        return zoom_geo_obs(arr, st[1], bad)
+        return zoom_geo_obs(arr, st[1], bad, opt)
     else: raise ValueError(kind)
+    for o, o0 in held:
+        if o != o0: bad.append("a shape argument (list) was modified by " + kind)
+    if not isinstance(r, aa.Array2D): bad.append(kind + " returned a " + type(r).__name__)
     if not geom_kept(r): bad.append("pixel scales / origin not kept by " + kind)
     return a2out(r, sc)
 def arr_case(st, h, out, g=None):
@@ -371,12 +588,19 @@ OLD_ARR = {"arr_resize": lambda i: ["resize", i["rs"], i["mpv"]], "arr_pad": lam
            "arr_trim": lambda i: ["trim", i["k"]], "pad_trim": lambda i: ["padtrim", i["k"], i["mpv"]],
            "enlarge_shrink": lambda i: ["enlshr", i["rs"], i["mpv"]], "zoom": lambda i: ["zoom", i["b"]]}
 
-def mask_step(aa, mask, st, m, g, bad):
-    """one observation on the Mask2D `mask` (content m, geometry g); returns (converted output, coq case)"""
+def mask_step(aa, mask, st, m, g, bad, opt=None):
+    """one observation on the Mask2D `mask` (content m, geometry g); returns (converted output, coq case).
+    opt: sk / omit as in arr_step, blur = trimmed_array_from reached through Mask2D.unmasked_blurred_array_from (1x1 unit PSF)"""
+    opt = opt or {}
+    sk, omit = opt.get("sk", "tuple"), opt.get("omit", False)
     kind = st[0]
     if kind == "resize":
         def f():
-            r = mask.resized_from(new_shape=tuple(st[1]), pad_value=st[2])
+            ns = shp(st[1], sk); ns0 = list(ns)
+            pv = bool(st[2]) if (sk == "list" and st[2] in (0, 1)) else st[2]          # pad value given as a bool
+            r = mask.resized_from(new_shape=ns) if (omit and st[2] == 0) else mask.resized_from(new_shape=ns, pad_value=pv)
+            if list(ns) != ns0: bad.append("Mask2D.resized_from modified its new_shape argument")
+            if not isinstance(r, aa.Mask2D): bad.append("Mask2D.resized_from returned a " + type(r).__name__)
             if not fp_eq(fp_mask(r)[1:], fp_mask(mask)[1:]): bad.append("pixel scales / origin not kept by Mask2D.resized_from")
             return bout(np.array(r))
         out = call_res(f)
@@ -392,14 +616,19 @@ def mask_step(aa, mask, st, m, g, bad):
         pv, ish = st[1], st[2]
         padded = aa.Array2D.no_mask(values=np.array(pv, dtype=float), pixel_scales=(0.25, 4.0), origin=(7.0, 9.0))
         f0 = fp_arr(padded)
-        t = mask.trimmed_array_from(padded_array=padded, image_shape=tuple(ish))
+        ishp = shp(ish, sk)
+        if opt.get("blur"):       # sibling entry point: convolution with the 1x1 unit kernel, then trimmed_array_from
+            psf = aa.Kernel2D.no_mask(values=[[1.0]], pixel_scales=(3.0, 5.0))
+            t = mask.unmasked_blurred_array_from(padded_array=padded, psf=psf, image_shape=ishp)
+        else: t = mask.trimmed_array_from(padded_array=padded, image_shape=ishp)
+        if list(ishp) != list(ish): bad.append("trimmed_array_from modified its image_shape argument")
         if not fp_eq(f0, fp_arr(padded)): bad.append("trimmed_array_from modified its padded_array argument")
         if not fp_eq(fp_mask(t.mask)[1:], fp_mask(mask)[1:]): bad.append("trimmed_array_from: geometry of the mask not kept")
         out = zout(np.array(t.native))
         return out, f"KTrimArr {cpair((len(m), len(m[0])))} {czarr(pv)} {cpair(ish)} {czarr(out)}"
     if kind == "coords":
         def f():
-            m2 = mask.resized_from(new_shape=tuple(st[1]), pad_value=1)
+            m2 = mask.resized_from(new_shape=shp(st[1], sk), pad_value=1)
             grid = np.array(aa.Grid2D.from_mask(mask=m2)).reshape(-1, 2)
             return [bout(np.array(m2)), [[fr(p[0]), fr(p[1])] for p in grid]]
         out = call_res(f)
@@ -427,10 +656,28 @@ def img_case(data, noise, m, k, g, out, chain=None):
     return (f"KApplyMask {czarr(data)} {czarr(noise)} {cbarr(m)} {copt(k, cpair)} {cgeom(g)} {cres(out, pr)}")
 def img_str(out):
     return ("ok", [out[1][0], out[1][1], out[1][2], [[str(a), str(b)] for a, b in out[1][3]]]) if out[0] == "ok" else out
+def fp_obj(o):
+    """fingerprint of a plain argument object (OverSamplingDataset ...): its attributes, one level down"""
+    if o is None: return None
+    return repr(sorted((k, (repr(sorted((kk, repr(vv)) for kk, vv in vars(v).items())) if hasattr(v, "__dict__") else repr(v)))
+                       for k, v in vars(o).items()))
+def mk_os(aa, os_):
+    if os_ is None: return None
+    from autoarray.dataset.over_sampling import OverSamplingDataset
+    return OverSamplingDataset(uniform=aa.OverSamplingUniform(sub_size=os_[0]), pixelization=aa.OverSamplingUniform(sub_size=os_[1]))
+def mk_psf(aa, k, gp, sub=False):
+    if k is None: return None
+    cls = subclasses(aa)["ker"] if sub else aa.Kernel2D
+    return cls.no_mask(values=np.ones(tuple(k)), pixel_scales=(float(Fraction(gp[0])), float(Fraction(gp[1]))))
 def mk_data(aa, v, gf, dv, sc):
     """the unmasked data / noise-map Array2D handed to Imaging: fresh, or derived (see mk_arr)"""
     ps, org = (gf[0], gf[1]), (gf[2], gf[3])
     x = np.array(v, dtype=float).reshape(len(v), len(v[0])) * (2.0 ** sc)
+    dv = eff_var(dv, v, sc)
+    if dv == "int": return aa.Array2D.no_mask(values=np.array(v, dtype=np.int64).reshape(x.shape), pixel_scales=ps, origin=org)
+    if dv == "f32": return aa.Array2D.no_mask(values=x.astype(np.float32), pixel_scales=ps, origin=org)
+    if dv == "list": return aa.Array2D.no_mask(values=x.tolist(), pixel_scales=ps, origin=org)
+    if dv == "sub": return subclasses(aa)["arr"](values=x, mask=aa.Mask2D.all_false(shape_native=x.shape, pixel_scales=ps, origin=org))
     if dv == "resized":      # a larger frame cut down with resized_from (a derived, natively computed array)
         big = np.pad(x, ((1, 1), (2, 2)), constant_values=77.0)
         return aa.Array2D.no_mask(values=big, pixel_scales=ps, origin=org).resized_from(new_shape=x.shape)
@@ -440,15 +687,68 @@ def mk_data(aa, v, gf, dv, sc):
     if dv == "arith": return (a * 2.0) - a
     return a
 
+def util_array(m, dt, lay):
+    """the ndarray handed to the util functions: dtype dt, memory layout lay"""
+    a = np.array(m, dtype=(bool if dt == "bool" else dt))
+    if lay == "f": a = np.asfortranarray(a)
+    elif lay == "view":       # every second entry of a larger buffer (non-contiguous)
+        big = np.full((2 * a.shape[0] + 1, 2 * a.shape[1] + 1), 55, dtype=a.dtype); big[::2, ::2][:a.shape[0], :a.shape[1]] = a
+        a = big[::2, ::2][:a.shape[0], :a.shape[1]]
+    elif lay == "ro": a.setflags(write=False)
+    return a
+
+_DEF0 = []
+def defaults_fp(aa):
+    """fingerprint of the DEFAULT ARGUMENT objects of the anchored callables (shared between all calls: OverSamplingDataset() ...)"""
+    from autoarray.structures.arrays import array_2d_util
+    from autoarray.dataset.abstract.dataset import AbstractDataset
+    fns = [aa.Imaging.__init__, AbstractDataset.__init__, aa.Imaging.apply_mask, aa.Imaging.apply_over_sampling, aa.Imaging.from_fits.__func__, aa.Array2D.resized_from, aa.Array2D.zoomed_around_mask,
+           aa.Array2D.padded_before_convolution_from, aa.Mask2D.resized_from, aa.Mask2D.__init__, aa.Array2D.__init__,
+           array_2d_util.resized_array_2d_from]
+    out = []
+    for f in fns:
+        for d in (getattr(f, "__defaults__", None) or ()):
+            out.append((type(d).__name__, repr(sorted((k, repr(v)) for k, v in vars(d).items())) if hasattr(d, "__dict__") else repr(d)))
+    return out
+
 def run_case(inp):
+    """every case is followed by a comparison of the shared default-argument objects with their first fingerprint"""
+    aa = import_aa()
+    if not _DEF0: _DEF0.append(defaults_fp(aa))
+    r = _run_case(inp)
+    if defaults_fp(aa) != _DEF0[0]:
+        r["py_ok"] = False; r["detail"] = ((r.get("detail") or "") + "; a shared default argument object was modified").strip("; ")
+        _DEF0[0] = defaults_fp(aa)
+    return r
+
+def _run_case(inp):
     aa = import_aa()
     import logging; logging.disable(logging.CRITICAL)
     from autoarray.structures.arrays import array_2d_util
     op = inp["op"]
     geom_bad = []
     var, sc = inp.get("var", "fresh"), inp.get("sc", 0)
+    opt = {"sk": inp.get("sk", "tuple"), "omit": inp.get("omit", False), "pre": inp.get("pre", False), "blur": inp.get("blur", False)}
     extra = []
-    if op == "resize_u":
+    if op == "resize_u" and "dt" in inp:
+        # input KINDS: integer / bool / float32 ndarray, Fortran-ordered, a strided view, a read-only array; the pad value
+        # is pad2 / 2 (a fraction when pad2 is odd), so everything is counted in halves on the Coq side
+        m = util_array(inp["m"], inp["dt"], inp["lay"]); m0 = m.copy()
+        kw = {} if inp.get("omit") else {"origin": tuple(inp["origin"])}
+        out = call_res(lambda: zout(array_2d_util.resized_array_2d_from(
+            array_2d=m, resized_shape=shp(inp["rs"], inp.get("sk", "tuple")), pad_value=inp["pad2"] / 2.0, **kw), -1))
+        if not np.array_equal(m, m0) or m.dtype != m0.dtype: geom_bad.append("resized_array_2d_from modified its argument")
+        tally("resize_u dtype " + inp["dt"]); tally("util layout " + inp["lay"])
+        m2 = [[2 * int(v) for v in r] for r in inp["m"]]
+        coq = f"KResizeU {czarr(m2)} {cpair(inp['rs'])} {cpair(inp['origin'])} {cz(inp['pad2'])} {cres(out, czarr)}"
+    elif op == "extract_u" and "dt" in inp:
+        m = util_array(inp["m"], inp["dt"], inp["lay"]); r = inp["r"]; m0 = m.copy()
+        rr = [np.int64(v) for v in r] if inp.get("sk") == "npint" else r
+        out = call_res(lambda: zout(array_2d_util.extracted_array_2d_from(array_2d=m, y0=rr[0], y1=rr[1], x0=rr[2], x1=rr[3])))
+        if not np.array_equal(m, m0) or m.dtype != m0.dtype: geom_bad.append("extracted_array_2d_from modified its argument")
+        tally("extract_u dtype " + inp["dt"]); tally("util layout " + inp["lay"])
+        coq = f"KExtractU {czarr(inp['m'])} {cz(r[0])} {cz(r[1])} {cz(r[2])} {cz(r[3])} {cres(out, czarr)}"
+    elif op == "resize_u":
         m = np.array(inp["m"], dtype=float); m0 = m.copy()
         out = call_res(lambda: zout(array_2d_util.resized_array_2d_from(
             array_2d=m, resized_shape=tuple(inp["rs"]), origin=tuple(inp["origin"]), pad_value=float(inp["pad"]))))
@@ -462,21 +762,39 @@ def run_case(inp):
         if not np.array_equal(m, m0): geom_bad.append("extracted_array_2d_from modified its argument")
         coq = f"KExtractU {czarr(inp['m'])} {cz(r[0])} {cz(r[1])} {cz(r[2])} {cz(r[3])} {cres(out, czarr)}"
     elif op == "mask_resize":
-        mask = mk_mask(aa, inp["m"], GEOM_CHK); f0 = fp_mask(mask)
-        out, coq = mask_step(aa, mask, ["resize", inp["rs"], inp["padv"]], inp["m"], GEOM_CHK, geom_bad)
+        mask, m = mk_mask2(aa, inp, GEOM_CHK); f0 = fp_mask(mask)
+        out, coq = mask_step(aa, mask, ["resize", inp["rs"], inp["padv"]], m, GEOM_CHK, geom_bad, opt)
         if not fp_eq(f0, fp_mask(mask)): geom_bad.append("Mask2D.resized_from modified the mask")
+    elif op == "mask_fits":
+        # sibling entry point: Mask2D.from_fits(resized_mask_shape=...) resizes the loaded mask (pad value 0), after `invert`
+        import os
+        os.makedirs("/tmp/scratch_C14", exist_ok=True)
+        path = "/tmp/scratch_C14/mask_%d.fits" % os.getpid()
+        gf = [float(Fraction(x)) for x in GEOM_CHK]
+        mk_mask(aa, inp["m"], GEOM_CHK).output_to_fits(file_path=path, overwrite=True)
+        def f():
+            r = aa.Mask2D.from_fits(file_path=path, pixel_scales=(gf[0], gf[1]), origin=(gf[2], gf[3]),
+                                    resized_mask_shape=shp(inp["rs"], opt["sk"]), invert=inp["inv"])
+            if not geom_kept(r): geom_bad.append("Mask2D.from_fits: pixel scales / origin")
+            return bout(np.array(r))
+        try: out = call_res(f)
+        finally:
+            if os.path.exists(path): os.remove(path)
+        m = [[(not v) if inp["inv"] else bool(v) for v in r] for r in inp["m"]]
+        coq = f"KMaskResize {cbarr(m)} {cpair(inp['rs'])} {cz(0)} {cres(out, cbarr)}"
     elif op in OLD_ARR:
         st = OLD_ARR[op](inp)
         with cfg_native(var == "cfg"):
             arr = mk_arr(aa, inp["a"], ("1", "1", "0", "0") if op == "zoom" else GEOM_CHK, var, sc); f0 = fp_arr(arr)
-            out = call_res(lambda: arr_step(aa, arr, st, sc, geom_bad))
+            out = call_res(lambda: arr_step(aa, arr, st, sc, geom_bad, opt))
             if not fp_eq(f0, fp_arr(arr)): geom_bad.append("the Array2D was modified by " + st[0])
         h, w = len(inp["a"][0]), len(inp["a"][0][0])
         if op == "arr_resize": tally("arr_resize parity " + parity(inp["rs"], (h, w)))
         if op == "pad_trim": tally("pad_trim kernel " + ("odd" if st[1][0] % 2 and st[1][1] % 2 else "even"))
         if op == "enlarge_shrink": tally("enlarge_shrink parity " + parity(inp["rs"], (h, w)))
         if op == "zoom": tally("zoom buffer %d" % inp["b"])
-        tally("array variant " + var + (" scaled" if sc else ""))
+        tally("array variant " + eff_var(var, inp["a"][0], sc) + (" scaled" if sc else ""))
+        if "sk" in inp: tally("shape arguments as " + opt["sk"] + (", defaults omitted" if opt["omit"] else ""))
         coq = arr_case(st, masked0(inp["a"]), out)
     elif op == "hist_arr":
         # ONE Array2D goes through a history of observations and in-place edits; every observation must be what a
@@ -492,7 +810,7 @@ def run_case(inp):
                     elif not a[1][y][x]: arr[sum(1 for yy in range(len(a[1])) for xx in range(len(a[1][0])) if not a[1][yy][xx] and (yy, xx) < (y, x))] = v * 2.0 ** sc
                     else: continue
                     a[0][y][x] = v; f0 = fp_arr(arr); continue
-                o = call_res(lambda: arr_step(aa, arr, st, sc, geom_bad))
+                o = call_res(lambda: arr_step(aa, arr, st, sc, geom_bad, opt))
                 if not fp_eq(f0, fp_arr(arr)): geom_bad.append("the Array2D was modified by " + st[0])
                 cases.append("(" + arr_case(st, masked0(a), o, GEOM_CHK) + ")")
                 outs.append(("ok", str_geom(o[1])) if st[0] == "zoomgeo" and o[0] == "ok" else o)
@@ -500,38 +818,40 @@ def run_case(inp):
         return {"coq": cases[0], "extra_coq": cases[1:], "out": outs, "py_ok": (False if geom_bad else None),
                 "detail": "; ".join(geom_bad) or None, "nontrivial": True, "kind": op}
     elif op == "hist_mask":
-        m = [list(r) for r in inp["m"]]; g = inp["g"]
-        mask = mk_mask(aa, m, g); f0 = fp_mask(mask)
+        g = inp["g"]
+        mask, m = mk_mask2(aa, inp, g); f0 = fp_mask(mask)
         outs, cases = [], []
         for st in inp["steps"]:
             if st[0] == "edit":          # mask[y, x] = ... by the user
                 y, x = st[1], st[2]; m[y][x] = not m[y][x]; mask[y, x] = m[y][x]; f0 = fp_mask(mask); continue
-            o, c = mask_step(aa, mask, st, m, g, geom_bad)
+            o, c = mask_step(aa, mask, st, m, g, geom_bad, opt)
             if not fp_eq(f0, fp_mask(mask)): geom_bad.append("the Mask2D was modified by " + st[0])
             outs.append(o); cases.append("(" + c + ")")
         return {"coq": cases[0], "extra_coq": cases[1:], "out": outs, "py_ok": (False if geom_bad else None),
                 "detail": "; ".join(geom_bad) or None, "nontrivial": True, "kind": op}
     elif op == "hist_img":
         # ONE Imaging dataset: several masks applied one after the other to the same object, to a masked result
-        # (which must go back to the unmasked data), to a trimmed result; in-place edits of the unmasked data
+        # (which must go back to the unmasked data), to a trimmed result; in-place edits of the unmasked data / noise map
         g = inp["g"]; gf = [float(Fraction(x)) for x in g]; k = inp["k"]; dv = inp["dv"]; cfg = dv == "cfg"
         data = [list(r) for r in inp["data"]]; noise = [list(r) for r in inp["noise"]]
         outs, cases = [], []
         with cfg_native(cfg):
             d0, n0 = mk_data(aa, data, gf, dv, sc), mk_data(aa, noise, gf, dv, sc)
-            psf = None if k is None else aa.Kernel2D.no_mask(values=np.ones(tuple(k)), pixel_scales=(gf[0], gf[1]))
-            ds = aa.Imaging(data=d0, noise_map=n0, psf=psf)
-            fp = lambda: (fp_arr(ds.data), fp_arr(ds.noise_map), (np.array(psf.native).copy() if psf is not None else 0))
+            psf = mk_psf(aa, k, inp.get("gp", g[:2]))
+            osd = mk_os(aa, inp.get("os")); kw = {} if osd is None else {"over_sampling": osd}
+            ds = (subclasses(aa)["img"] if inp.get("subimg") else aa.Imaging)(data=d0, noise_map=n0, psf=psf, **kw)
+            fp = lambda: (fp_arr(ds.data), fp_arr(ds.noise_map), (np.array(psf.native).copy() if psf is not None else 0), fp_obj(osd))
             f0 = fp(); last = None     # last = (dataset, base, content, allfalse, mask given): see below
             fresh_last = False         # `last` came from ds.apply_mask and ds was not edited since: the chain is a model case too
             H, W = len(data), len(data[0])
             for st in inp["steps"]:
-                if st[0] == "edit":
+                if st[0] in ("edit", "nedit"):
                     y, x, v = st[1], st[2], st[3]
-                    if ds.data.ndim == 2: ds.data[y, x] = v * 2.0 ** sc
-                    else: ds.data[y * W + x] = v * 2.0 ** sc
-                    data[y][x] = v; f0 = fp(); fresh_last = False; continue
-                mobj = mk_mask(aa, st[1], g); fm = fp_mask(mobj)
+                    tgt, cur = (ds.data, data) if st[0] == "edit" else (ds.noise_map, noise)
+                    if tgt.ndim == 2: tgt[y, x] = v * 2.0 ** sc
+                    else: tgt[y * W + x] = v * 2.0 ** sc
+                    cur[y][x] = v; f0 = fp(); fresh_last = False; continue
+                mobj = mk_mask(aa, st[1], g, sub=(dv == "submask")); fm = fp_mask(mobj)
                 chain_case = None
                 # which data does the code mask?  apply_mask on the unmasked dataset `ds`: its current content.  On a masked
                 # dataset: its `.unmasked` (the LIVE object it was made from) -- unless its own mask is all False, then the
@@ -543,11 +863,11 @@ def run_case(inp):
                     padded = tuple(lobj.mask.shape_native) != (H, W)
                     trimmed = False
                     if st[0] == "trimchain" and k is not None and padded:            # only a padded dataset is trimmed back
-                        src = lobj.trimmed_after_convolution_from(kernel_shape=tuple(k))
+                        src = lobj.trimmed_after_convolution_from(kernel_shape=shp(k, opt["sk"]))
                         lallfalse = not any(any(r) for r in lmask); trimmed = True
                     if fresh_last: chain_case = (lmask, trimmed)
                     base = lcontent if lallfalse else lbase
-                content = [list(r) for r in (data if base == "live" else base)]
+                content = [[list(r) for r in data], [list(r) for r in noise]] if base == "live" else [[list(r) for r in base[0]], [list(r) for r in base[1]]]
                 def f():
                     nonlocal last
                     r = src.apply_mask(mask=mobj)
@@ -556,29 +876,25 @@ def run_case(inp):
                     last = (r, base, content, allfalse, st[1])
                     return o
                 o = call_res(f)
-                if not fp_eq(f0[0], fp()[0]) or not fp_eq(f0[1], fp()[1]) or not np.array_equal(f0[2], fp()[2]):
+                f1 = fp()
+                if not fp_eq(f0[0], f1[0]) or not fp_eq(f0[1], f1[1]) or not np.array_equal(f0[2], f1[2]):
                     geom_bad.append("apply_mask modified the unmasked dataset (" + st[0] + ")")
+                if f0[3] != f1[3]: geom_bad.append("apply_mask modified the over_sampling object")
                 if not fp_eq(fm, fp_mask(mobj)): geom_bad.append("apply_mask modified the mask it was given")
-                outs.append(img_str(o)); cases.append("(" + img_case(content, noise, st[1], k, g, o) + ")")
+                outs.append(img_str(o)); cases.append("(" + img_case(content[0], content[1], st[1], k, g, o) + ")")
                 if chain_case is not None:
-                    cases.append("(" + img_case(content, noise, st[1], k, g, o, chain_case) + ")")
+                    cases.append("(" + img_case(content[0], content[1], st[1], k, g, o, chain_case) + ")")
                     tally("hist_img chain case" + (" after trim" if chain_case[1] else ""))
                 fresh_last = st[0] == "mask" and o[0] == "ok"
-        tally("hist_img data variant " + dv)
+        tally("hist_img data variant " + eff_var(dv, inp["data"], sc))
         return {"coq": cases[0], "extra_coq": cases[1:], "out": outs, "py_ok": (False if geom_bad else None),
                 "detail": "; ".join(geom_bad) or None, "nontrivial": True, "kind": op}
     elif op == "trimarr":
         p = inp["p"]; h, w = len(p), len(p[0])
-        mask = mk_mask(aa, [[False] * w for _ in range(h)], GEOMS[1])
-        padded = aa.Array2D.no_mask(values=np.array(p, dtype=float), pixel_scales=(0.5, 2.0), origin=(1.0, -2.0))
-        f0 = fp_arr(padded)
-        t = mask.trimmed_array_from(padded_array=padded, image_shape=tuple(inp["is"]))
-        out = zout(np.array(t.native))
-        py_ok = None
-        if tuple(t.mask.origin) != (1.0, -2.0) or tuple(t.pixel_scales) != (0.5, 2.0): py_ok = False   # keeps the geometry
-        if not fp_eq(f0, fp_arr(padded)): py_ok = False
-        coq = f"KTrimArr {cpair((h, w))} {czarr(p)} {cpair(inp['is'])} {czarr(out)}"
-        return {"coq": "(" + coq + ")", "out": out, "py_ok": py_ok, "nontrivial": True, "kind": op}
+        # the mask carries the geometry of the result (GEOMS[1]); the padded array has ANOTHER one
+        mask = mk_mask(aa, [[False] * w for _ in range(h)], GEOMS[1], sub=inp.get("submask", False))
+        out, coq = mask_step(aa, mask, ["trimarr", p, inp["is"]], [[False] * w for _ in range(h)], GEOMS[1], geom_bad, opt)
+        if opt["blur"]: tally("trimarr through unmasked_blurred_array_from")
     elif op == "pad_trimarr":
         def f():
             arr = mk_arr(aa, inp["a"], var=var, sc=sc)
@@ -589,33 +905,55 @@ def run_case(inp):
     elif op == "zoom_geo":
         with cfg_native(var == "cfg"):
             arr = mk_arr(aa, [inp["v"], inp["m"]], inp["g"], var, sc); f0 = fp_arr(arr)
-            out = call_res(lambda: zoom_geo_obs(arr, inp["b"], geom_bad))
+            out = call_res(lambda: zoom_geo_obs(arr, inp["b"], geom_bad, opt))
             if not fp_eq(f0, fp_arr(arr)): geom_bad.append("the Array2D was modified by zoomed_around_mask")
         tally("zoom_geo buffer %d" % inp["b"])
         coq = f"KZoomGeo {cbarr(inp['m'])} {cgeom(inp['g'])} {cz(inp['b'])} {cres(out, cshape_geom)}"
         if out[0] == "ok": out = ("ok", str_geom(out[1]))
     elif op == "mask_zoom":
-        mask = mk_mask(aa, inp["m"], inp["g"]); f0 = fp_mask(mask)
-        out, coq = mask_step(aa, mask, ["mask_zoom"], inp["m"], inp["g"], geom_bad)
+        mask, m = mk_mask2(aa, inp, inp["g"]); f0 = fp_mask(mask)
+        out, coq = mask_step(aa, mask, ["mask_zoom"], m, inp["g"], geom_bad)
         if not fp_eq(f0, fp_mask(mask)): geom_bad.append("the Mask2D was modified by its zoom properties")
     elif op == "zoom_region":
-        out, coq = mask_step(aa, mk_mask(aa, inp["m"]), ["zoom_region"], inp["m"], None, geom_bad)
+        mask, m = mk_mask2(aa, inp, ("1", "1", "0", "0"))
+        out, coq = mask_step(aa, mask, ["zoom_region"], m, None, geom_bad)
     elif op == "apply_mask":
-        g = inp["g"]; gf = [float(Fraction(x)) for x in g]; dv = inp.get("dv", "fresh"); cfg = dv == "cfg"
+        # g: geometry of the mask and of the unmasked data; gp: pixel scales of the PSF (usually the same as the data's: varied
+        # independently, they must not influence anything).  (gd: geometry of the unmasked data where it differs from the mask's --
+        # the code then works on the mask's frame; not generated, the property text does not say which of the two is kept.)  entry: "apply" (Imaging.apply_mask),
+        # "direct" (Imaging(data=Array2D(values, mask), ..., pad_for_convolver=True): the anchored __init__ lines reached without
+        # apply_mask), "direct_nopad" (pad_for_convolver=False: never padded).  os: an explicit OverSamplingDataset argument.
+        g = inp["g"]; gd = inp.get("gd", g); gp = inp.get("gp", g[:2]); gf = [float(Fraction(x)) for x in gd]
+        dv = inp.get("dv", "fresh"); cfg = dv == "cfg"; entry = inp.get("entry", "apply")
         def f():
             data, noise = mk_data(aa, inp["data"], gf, dv, sc), mk_data(aa, inp["noise"], gf, dv, sc)
-            psf = None if inp["k"] is None else aa.Kernel2D.no_mask(values=np.ones(tuple(inp["k"])), pixel_scales=(gf[0], gf[1]))
-            f0 = (fp_arr(data), fp_arr(noise))
-            ds = aa.Imaging(data=data, noise_map=noise, psf=psf).apply_mask(mask=mk_mask(aa, inp["m"], g))
+            psf = mk_psf(aa, inp["k"], gp, inp.get("subpsf", False))
+            osd = mk_os(aa, inp.get("os")); kw = {} if osd is None else {"over_sampling": osd}
+            mobj = mk_mask(aa, inp["m"], g, sub=(dv == "submask")); fm = fp_mask(mobj)
+            f0 = (fp_arr(data), fp_arr(noise), fp_obj(osd), (None if psf is None else np.array(psf.native).copy()))
+            cls = subclasses(aa)["img"] if inp.get("subimg") else aa.Imaging
+            if entry == "apply":
+                if inp.get("nocheck"): kw["check_noise_map"] = False          # non-positive noise values, at masked pixels only
+                ds = cls(data=data, noise_map=noise, psf=psf, **kw).apply_mask(mask=mobj)
+            else:
+                ds = cls(data=aa.Array2D(values=data.native, mask=mobj), noise_map=aa.Array2D(values=noise.native, mask=mobj), psf=psf,
+                         pad_for_convolver=(entry == "direct"), **kw)
             o = img_obs(ds, sc, cfg)
+            if not isinstance(ds, aa.Imaging): geom_bad.append("the masked dataset is a " + type(ds).__name__)
             if not fp_eq(f0[0], fp_arr(data)) or not fp_eq(f0[1], fp_arr(noise)): geom_bad.append("apply_mask modified the arrays the dataset was built from")
+            if f0[2] != fp_obj(osd): geom_bad.append("the over_sampling argument was modified")
+            if psf is not None and not np.array_equal(f0[3], np.array(psf.native)): geom_bad.append("the psf argument was modified")
+            if not fp_eq(fm, fp_mask(mobj)): geom_bad.append("the mask argument was modified")
             return o
         with cfg_native(cfg): out = call_res(f)
+        kmod = inp["k"] if entry != "direct_nopad" else None
         if out[0] == "ok":
-            tally("apply_mask " + ("no psf" if inp["k"] is None else
+            tally("apply_mask " + ("no psf" if kmod is None else
                                    ("padded" if len(out[1][0]) != len(inp["m"]) or len(out[1][0][0]) != len(inp["m"][0]) else "not padded")))
-        tally("apply_mask data variant " + dv + (" scaled" if sc else ""))
-        coq = img_case(inp["data"], inp["noise"], inp["m"], inp["k"], g, out)
+        tally("apply_mask data variant " + eff_var(dv, inp["data"], sc) + (" scaled" if sc else ""))
+        if entry != "apply": tally("apply_mask entry " + entry)
+        if gd != g or list(gp) != list(g[:2]): tally("apply_mask with PSF pixel scales different from the data's")
+        coq = img_case(inp["data"], inp["noise"], inp["m"], kmod, g, out)
         out = img_str(out)
     elif op == "apply_mask_trim":
         g = inp["g"]; gf = [float(Fraction(x)) for x in g]; dv = inp.get("dv", "fresh")
@@ -638,9 +976,33 @@ def run_case(inp):
         coq = (f"KApplyMaskTrim {czarr(inp['data'])} {czarr(inp['noise'])} {cbarr(inp['m'])} {cpair(inp['k'])} "
                f"{cgeom(g)} {cres(out, pr)}")
         if out[0] == "ok": out = ("ok", [out[1][0], out[1][1], out[1][2], [[str(a), str(b)] for a, b in out[1][3]]])
+    elif op == "pad_grid":
+        g = inp["g"]; gf = [float(Fraction(x)) for x in g]; m = inp["m"]; h, w = len(m), len(m[0])
+        def f():
+            if inp["via"] == "from_mask": grid = aa.Grid2D.from_mask(mask=mk_mask(aa, m, g))
+            elif inp["via"] == "uniform": grid = aa.Grid2D.uniform(shape_native=(h, w), pixel_scales=(gf[0], gf[1]), origin=(gf[2], gf[3]))
+            else:
+                base = np.array(aa.Grid2D.uniform(shape_native=(h, w), pixel_scales=(gf[0], gf[1]), origin=(gf[2], gf[3])).native)
+                grid = aa.Grid2D.no_mask(values=base, pixel_scales=(gf[0], gf[1]), origin=(gf[2], gf[3]))
+            g0 = np.array(grid).copy(); fm = fp_mask(grid.mask)
+            ks = shp(inp["k"], opt["sk"])
+            if inp.get("twice"):      # the same grid object padded for ANOTHER kernel first
+                _ = np.array(grid.padded_grid_from(kernel_shape_native=(inp["k"][0] + 2, inp["k"][1] + 4)))
+            pg = grid.padded_grid_from(kernel_shape_native=ks)
+            if list(ks) != list(inp["k"]): geom_bad.append("padded_grid_from modified its kernel shape argument")
+            if not np.array_equal(g0, np.array(grid)) or not fp_eq(fm, fp_mask(grid.mask)): geom_bad.append("padded_grid_from modified the grid")
+            if np.array(pg.mask).any(): geom_bad.append("the padded grid's mask is not all False")
+            if not fp_eq(fp_mask(pg.mask)[1:], fm[1:]): geom_bad.append("padded_grid_from: pixel scales / origin not kept")
+            return [[int(pg.mask.shape_native[0]), int(pg.mask.shape_native[1])], [[fr(p[0]), fr(p[1])] for p in np.array(pg).reshape(-1, 2)]]
+        out = call_res(f)
+        pr = lambda o: ctup([cpair(o[0]), clist([cqq(p) for p in o[1]])])
+        coq = f"KPadGrid {cpair((h, w))} {cpair(inp['k'])} {cgeom(g)} {cres(out, pr)}"
+        tally("pad_grid kernel " + ("odd" if inp["k"][0] % 2 and inp["k"][1] % 2 else "even") + " via " + inp["via"])
+        if out[0] == "ok": out = ("ok", [out[1][0], [[str(a), str(b)] for a, b in out[1][1]]])
     elif op == "resize_coords":
-        out, coq = mask_step(aa, mk_mask(aa, inp["m"], inp["g"]), ["coords", inp["rs"]], inp["m"], inp["g"], geom_bad)
-        tally("resize_coords parity " + parity(inp["rs"], (len(inp["m"]), len(inp["m"][0]))))
+        mask, m = mk_mask2(aa, inp, inp["g"])
+        out, coq = mask_step(aa, mask, ["coords", inp["rs"]], m, inp["g"], geom_bad, opt)
+        tally("resize_coords parity " + parity(inp["rs"], (len(m), len(m[0]))))
     else:
         raise ValueError(op)
     return {"coq": "(" + coq + ")", "out": out, "py_ok": (False if geom_bad else None), "detail": "; ".join(map(str, geom_bad)) or None,
